@@ -37,7 +37,7 @@ Judge == tid # 0 => \A cl \in Clauses : Holds(cl, tid) \/ PrintT(<<"FAIL", tid, 
 Conform == (tid # 0 /\ T(tid).kind = "cache") =>
    (\A k \in DOMAIN T(tid).events :
        LET e == T(tid).events[k] IN
-       (e.ev \in Faulty \/ e.ev = "crash") =>
+       (e.ev \in Faulty \/ e.ev = "crash") =>   \* ("foreign" events carry no load outcome)
            (e.load = "nofile" \/ e.load = Load(IF e.ev = "crash" THEN "prefix" ELSE e.ev)))
    \/ PrintT(<<"DRIFT", tid>>)
 Done == tid # 0 => PrintT(<<"DONE", tid>>)
